@@ -319,10 +319,13 @@ func (w *c47World) pick(rng *kit.RNG) *c47ID {
 
 func c47Case(rec *kit.Rec, ci int) (done bool) {
 	rng := rec.RNG("case", ci)
-	procs := []int{1, 2, 4, 16}[rng.Intn(4)]
+	procs := []int{1, 1, 2, 4}[rng.Intn(4)] // more Ps than that mostly adds cross-thread wake-up latency on a shared machine
+	if rec.Env.Thorough() && ci%16 == 5 {
+		procs = 8
+	}
 	nIDs := rng.Range(4, 64)
-	G := rng.Range(2, 32)
-	ops := rng.Range(20, 150)
+	G := rng.Range(2, 16)
+	ops := rng.Range(20, 80)
 	failPct := []int{0, 0, 5, 20, 50}[rng.Intn(5)]
 	var size int
 	switch rng.Intn(4) {
@@ -492,7 +495,7 @@ func c47Workload(w *c47World, rng *kit.RNG, G, ops, failPct int) {
 					w.call(x, 0, 0, nil, nil)
 				}()
 			}
-			for y := 0; y < 300; y++ { // let the waiters reach the channel (no effect on the verdict if they do not)
+			for y := 0; y < 60; y++ { // let the waiters reach the channel (no effect on the verdict if they do not)
 				runtime.Gosched()
 			}
 			w.snapshot("while a computation is gated")
@@ -549,12 +552,17 @@ func TestVerifC47(t *testing.T) {
 	rec := kit.Start(t, "C47", "bloblru")
 	defer rec.Finish()
 	env := rec.Env
-	n := env.Pick(500, 30000)
+	n := env.Pick(320, 12000)
 	for ci := 0; ci < n; ci++ {
 		if !env.Mine(ci) {
 			continue
 		}
-		if !c47Case(rec, ci) {
+		t0 := time.Now()
+		ok := c47Case(rec, ci)
+		if d := time.Since(t0); d > 5*time.Second {
+			t.Logf("slow case %d: %v", ci, d)
+		}
+		if !ok {
 			return // a hung case leaves goroutines behind: stop this shard (inconclusive)
 		}
 	}
